@@ -38,9 +38,10 @@ fn gen(stream: &str, seed: u64, n: u64) -> Vec<String> {
                 "wire" => wire::gen(&mut r, i),
                 "st" => streams::gen(&mut r, i),
                 "pool" => pool::gen(&mut r, i),
+                "poolt" => { let b = pool::gen_timed(&mut r, i); if b.starts_with('X') { b } else { format!("X{b}") } }
                 _ => panic!("unknown stream {stream}"),
             };
-            format!("{stream} {body}")
+            if let Some(b) = body.strip_prefix('X') { format!("pool {b}") } else { format!("{stream} {body}") }
         })
         .collect()
 }
